@@ -2,7 +2,7 @@
 """hvprops.py -- one check function per property (see DESIGN.md section 6)."""
 import os, re, sys, json, time, random, subprocess
 import hvlib as H
-import gen_map, gen_arith, gen_set
+import gen_map, gen_arith, gen_set, gen_table, gen_par, gen_serde
 
 M64 = (1 << 64) - 1
 ISIZE_MAX = (1 << 63) - 1
@@ -460,8 +460,113 @@ def check_c07(run):
         rule="histories over two HashSets A and B built by different interleavings (so equal sets differ in layout, capacity, tombstones), 8 hash-plan classes, universes 5..90, all |A| vs |B| orderings; binary operations union / intersection / difference / symmetric_difference / is_subset / is_superset / is_disjoint / == / | & ^ - / |= &= ^= -= : the exact output SEQUENCE must equal the extracted SetAlg pipeline applied to the two dumped iteration orders (level C), and the result as a set must equal the mathematical result computed from the abstract contents (level A); single-set operations (insert, replace, take, get, get_or_insert, get_or_insert_with incl. the non-equivalent-value refusal, remove, entry, retain, drain, extract_if) go through model_step / AssocSpec like C01; Difference::size_hint is checked at every step by the harness",
         nontrivial_keys=("set_a_larger", "set_a_smaller_or_equal"))
 
+def op_in(f, prefixes):
+    m = re.search(r"op=\[(\S+)", f.text)
+    return bool(m) and any(m.group(1).startswith(p) for p in prefixes)
+
+def gen_iter_scripts(tier, seed, variant):
+    """map / set / table histories with an iterator operation after every few steps"""
+    rng = random.Random(seed)
+    n = 36 if tier == "quick" else 120
+    out = []
+    for i in range(n):
+        which = rng.choice(["map", "map", "set", "table"])
+        if which == "map":
+            blk = gen_map.make_script(rng, f"i{seed}_{i}")
+            ins = lambda: rng.choice(["iter", f"iterfold {rng.randrange(0, 40)}", "iter", f"drain {rng.choice([0, 1, 2, 5, 1000])}"])
+        elif which == "set":
+            blk = gen_set.make_script(rng, f"i{seed}_{i}")
+            ins = lambda: rng.choice(["A iter", "B iter", f"A drain {rng.choice([0, 1, 1000])}"])
+        else:
+            blk = gen_table.make_script(rng, f"i{seed}_{i}")
+            ins = lambda: rng.choice(["titer", "titer", f"tdrain {rng.choice([0, 1, 3, 1000])}"])
+        lines = blk.rstrip("\n").split("\n")
+        res = []
+        k = 0
+        for l in lines:
+            res.append(l)
+            if not (l.startswith("===") or l.startswith("kind") or l.startswith("hash")):
+                k += 1
+                if k % 4 == 0 and not l.startswith(("extractif", "A extractif", "B extractif")):
+                    res.append(ins())
+        out.append("\n".join(res) + "\n")
+    return "".join(out)
+
+def check_c09(run):
+    return script_property(
+        run, gen_iter_scripts,
+        relevant=lambda f: f.kind == "CRASH" or (f.kind in ("A-FAIL", "H-FAIL") and (op_in(f, ("iter", "titer", "drain", "tdrain", "into_par")) or any(k in f.text for k in ("iter", "size_hint", "yields", "keys()/values()", "drain.len")))),
+        rule="HashMap / HashSet / HashTable histories (all hash-plan classes, drop and no-drop elements, several element layouts) with an iterator operation after every fourth step: iter (next until None, then twice more; len() and size_hint() checked against the true remaining count at every step; keys/values/values_mut/iter_mut must agree), iterfold p (p calls of next, a clone taken, then fold: fold and the clone must continue with the same elements), drain n; the visited sequence must equal the extracted model's (level C) and the reference contents as a multiset (level A)")
+
+def gen_serde_scripts(tier, seed, variant):
+    rng = random.Random(seed)
+    n = 40 if tier == "quick" else 150
+    return "".join(gen_serde.make_script(rng, f"d{seed}_{i}") for i in range(n))
+
+def check_c20(run):
+    return script_property(
+        run, gen_serde_scripts,
+        relevant=lambda f: f.kind == "CRASH" or (f.kind in ("A-FAIL", "H-FAIL", "B-FAIL") and op_in(f, ("serde_",))),
+        rule="HashMap histories interleaved with serde operations through an in-memory data format: deserialisation from scripted inputs (0..40 pairs with many duplicate keys, claimed size hints none/0/1/../4096/4097/10^6/isize::MAX/usize::MAX, an input error injected at every position or none), round trips of maps with arbitrary histories, HashSet deserialize and deserialize_in_place; the deserialised table must equal bit for bit the extracted model (with_capacity(cautious(hint)) + inserts; on error the partial map is dropped and freed), contents must be last-value-per-key, the first allocation must be bounded regardless of the hint, no leak / double drop on the error paths",
+        nontrivial_keys=("serde_ok_path", "serde_error_path"))
+
+def gen_par_scripts(tier, seed, variant):
+    rng = random.Random(seed)
+    n = 30 if tier == "quick" else 100
+    return "".join(gen_par.make_script(rng, f"p{seed}_{i}", exhaustive_trees=(tier == "thorough")) for i in range(n))
+
+def check_c19(run):
+    return script_property(
+        run, gen_par_scripts,
+        relevant=lambda f: f.kind == "CRASH" or (f.kind in ("A-FAIL", "H-FAIL", "B-FAIL") and op_in(f, ("par_", "into_par_iter"))),
+        rule="HashMap histories with rayon operations: par_split <decisions> drives the real RawIterRange::split along caller-chosen split trees (random depth up to 24 decisions; all trees up to 4 decisions in the thorough tier) and every leaf's bucket list must equal the extracted model's (level C) and the leaves must partition the stored elements (level A); par_iter / par_keys / par_values / par_iter_mut / par_values_mut / into_par_iter / par_drain with consumers that stop after k elements / par_extend on pools of 1..64 threads, judged as multisets against the reference map, with the registry checking that every element is delivered or dropped exactly once",
+        nontrivial_keys=("split_leaves_2", "split_leaves_3", "split_leaves_4", "split_leaves_5", "split_leaves_6", "split_leaves_7", "split_leaves_8", "split_leaves_9"),
+        partial_note="thread interleavings, rayon's contract that every producer is folded exactly once, and data-race freedom are runtime facts outside the model; what is proved is that every split tree partitions the buckets and that drain conserves elements, for all trees and all stop positions")
+
+def check_c16(run):
+    pid = "C16"
+    cs = H.coq_stage(run, pid)
+    rc, out = H.sh([sys.executable, os.path.join(H.ROOT, "tools", "c16_probes.py"), "--repo", H.REPO, "--work", os.path.join(run.wdir, "probes"),
+                    "--tier", run.tier], timeout=1500)
+    fails = re.findall(r"^PROBE-FAIL (\S+) (.*)$", out, re.M)
+    st = {k: int(v) for k, v in re.findall(r"(\w+)=(\d+)", (re.findall(r"^STATS .*$", out, re.M) or [""])[-1])}
+    prop = [(k, t) for k, t in fails if k == "property"]
+    tie = [(k, t) for k, t in fails if k != "property"]
+    if prop:
+        for i, (k, t) in enumerate(prop[:3]):
+            m = re.search(r"file=(\S+)", t)
+            body = ""
+            if m and os.path.exists(m.group(1)):
+                body = open(m.group(1)).read()
+            p = run.write_replay(f"replay_{i}.rs", f"// property C16 violated: this program must be rejected by rustc but compiles against the current /repo\n// {t}\n// replay: rustc --edition 2021 --crate-type lib --emit=metadata --extern hashbrown=<rlib> <this file>\n" + body)
+            run.violation(p)
+    elif (not cs["ok"]) or tie or not st:
+        text = "// property C16: no failing program found, but the property is no longer shown to hold.\n"
+        for w in cs["problems"] + [f"{k} {t}" for k, t in tie[:5]] + ([] if st else ["probe run failed: " + out[-400:].replace("\n", " ")]):
+            text += "// broken: " + w.replace("\n", " ") + "\n"
+        p = run.write_replay("replay_unproved.txt", text)
+        run.violation(p, "no-failing-input-found")
+    cov = {
+        "obligations": cs["obligations"], "discharged": cs["discharged"],
+        "checker_cmd": "cd /verif/coq && make theories/Properties/C16.vo && coqc -Q theories HB theories/Properties/C16.v  (Print Assumptions)",
+        "trusted_base": H.TRUSTED_BASE + ["translator tools/sigx.py (struct/enum declarations, unsafe impl Send/Sync with bounds -> Gen/GenTypes.v)",
+                                           "Model/Marker.v: a model of rustc's auto-trait and variance rules for the constructs occurring in these declarations, validated against rustc by generated probe programs",
+                                           "Spec/AccessTable.v: hand-written statement of which parameters each public type gives shared / exclusive / owning access to"],
+        "evaluations": st.get("probes", 0), "distinct_nontrivial": st.get("rejected", 0),
+        "rule": "probe programs compiled with rustc against the freshly built hashbrown rlib: for every public type x trait (Send/Sync) x choice of a non-Send / non-Sync marker type for one parameter, acceptance must equal the Coq calculus' prediction (evaluated inside Coq); borrow probes (a handle held across a mutation / drop / scope escape must be rejected, its twin accepted) and variance probes (lifetime shortening through mutable handles must be rejected). non-trivial = probes that rustc must reject",
+        "samples": [l for l in out.split("\n") if l.startswith("STATS")][:1] or ["(no probe ran)"],
+        "probe_stats": st, "calculus_vs_rustc_disagreements": len(tie),
+        "proof_problems": cs["problems"], "cone_files": cs.get("files", []), "print_assumptions_closed": cs.get("assumptions_closed"),
+        "partial": "the calculus is a model of rustc's trait solver / variance inference for these declarations, not a verified one; the borrow-lifetime part of the property is decided by rustc on the probe programs only (no theorem); soundness of the code behind the unsafe impls is C02's subject",
+    }
+    return H.finish(run, cov, "proof", assumptions=[cov["partial"]])
+
 PROPS = {
     "C17": check_c17,
+    "C16": check_c16,
+    "C09": check_c09,
+    "C20": check_c20,
+    "C19": check_c19,
     "C07": check_c07,
     "C01": check_c01,
     "C18": check_c18,
